@@ -372,14 +372,24 @@ def split_prop_check(ctx, c, outs):
         ru = SP.vector2xy_split(V(u))
         for deg in (False, True):
             a, p = (np.rad2deg(az), np.rad2deg(pol)) if deg else (az, pol)
-            rs = SP().spherical2xy_split(a, p, degrees=deg)
-            for k, nm in enumerate(("x_upper", "y_upper", "x_lower", "y_lower")):
-                if np.shape(rs[k]) != np.shape(ru[k]):
-                    return (f"spherical2xy_split(degrees={deg}) returns {np.size(rs[k])} values for {nm} but vector2xy_split of the "
-                            f"same directions {np.size(ru[k])} (polar angles {pol.tolist()})")
-                if np.size(ru[k]) and np.abs(np.asarray(rs[k]) - np.asarray(ru[k])).max() > 1e-9:
-                    return (f"spherical2xy_split(degrees={deg}) {nm} = {np.asarray(rs[k]).tolist()} but vector2xy_split of the same "
-                            f"directions gives {np.asarray(ru[k]).tolist()}")
+            # the split is a static operation (upper = z >= 0, lower = z <= 0): it does not depend on the pole the instance it is
+            # reached through was built with, nor on whether it is reached through an instance or the class
+            for how in ("default", -1, 1):
+                inst = SP() if how == "default" else SP(how)
+                rs = inst.spherical2xy_split(a, p, degrees=deg)
+                ri = inst.vector2xy_split(V(u))
+                for k, nm in enumerate(("x_upper", "y_upper", "x_lower", "y_lower")):
+                    if np.shape(ri[k]) != np.shape(ru[k]) or (np.size(ru[k]) and np.abs(np.asarray(ri[k]) - np.asarray(ru[k])).max() > 0):
+                        return (f"vector2xy_split reached through StereographicProjection({'' if how == 'default' else how}) gives "
+                                f"{nm} = {np.asarray(ri[k]).tolist()} but through the class {np.asarray(ru[k]).tolist()}")
+                    if np.shape(rs[k]) != np.shape(ru[k]):
+                        return (f"StereographicProjection({'' if how == 'default' else how}).spherical2xy_split(degrees={deg}) returns "
+                                f"{np.size(rs[k])} values for {nm} but vector2xy_split of the "
+                                f"same directions {np.size(ru[k])} (polar angles {pol.tolist()})")
+                    if np.size(ru[k]) and np.abs(np.asarray(rs[k]) - np.asarray(ru[k])).max() > 1e-9:
+                        return (f"StereographicProjection({'' if how == 'default' else how}).spherical2xy_split(degrees={deg}) {nm} = "
+                                f"{np.asarray(rs[k]).tolist()} but vector2xy_split of the same "
+                                f"directions gives {np.asarray(ru[k]).tolist()}")
     return None
 
 
